@@ -462,11 +462,12 @@ func main() {
 	maxWF, budget, calib := calibrate()
 	// the bundled client allocates a 1 MiB copy buffer for every multipart request (client/hooks.go
 	// parserRequestBodyFile); with the default GC pacing that is a collection every few round trips
-	gcp := 400
+	gcp := 200
 	if e := os.Getenv("C11_GCPERCENT"); e != "" {
 		fmt.Sscan(e, &gcp)
 	}
 	debug.SetGCPercent(gcp)
+	debug.SetMemoryLimit(4 << 30) // safety net only
 	tA := time.Now()
 	col := newCollector()
 	sp := &sampler{}
